@@ -36,7 +36,11 @@
 #include "velem.h"
 
 #ifndef VL_MAXN
-# define VL_MAXN 4                 /* bound on the length of a built list */
+# ifdef VERIF_THOROUGH
+#  define VL_MAXN 5                /* thorough tier: one node more */
+# else
+#  define VL_MAXN 4                /* bound on the length of a built list */
+# endif
 #endif
 #define VL_GROW 2                  /* insert_at may grow a list by at most VL_GROW placeholders + 1 */
 #define VL_CAP (VL_MAXN + VL_GROW + 1)
